@@ -6,15 +6,16 @@
 -/
 namespace QV.Model.Literal
 
+/-- value of an ASCII alphanumeric as a digit of radix 36 -/
+def digitVal36 (c : Char) : Option Nat :=
+  if 48 ≤ c.toNat ∧ c.toNat ≤ 57 then some (c.toNat - 48)
+  else if 97 ≤ c.toNat ∧ c.toNat ≤ 122 then some (c.toNat - 87)
+  else if 65 ≤ c.toNat ∧ c.toNat ≤ 90 then some (c.toNat - 55)
+  else none
+
 /-- `char::to_digit(radix)` -/
 def toDigit (radix : Nat) (c : Char) : Option Nat :=
-  let n := c.toNat
-  let v : Option Nat :=
-    if 48 ≤ n ∧ n ≤ 57 then some (n - 48)
-    else if 97 ≤ n ∧ n ≤ 122 then some (n - 87)
-    else if 65 ≤ n ∧ n ≤ 90 then some (n - 55)
-    else none
-  match v with
+  match digitVal36 c with
   | some d => if d < radix then some d else none
   | none => none
 
